@@ -906,6 +906,9 @@ def run(ctx, replay=None):
         nested_streams(ctx, corr_pairs)
         fused_streams(ctx, corr_pairs)
         catalog_streams(ctx, corr_pairs)
+        from harness.props_ext import c21_keys  # key normalisation / reference resolution at the string level (Props/C21Keys.lean; rky.*)
+
+        c21_keys.run(ctx)
     t_run = time.time()
     n = ctx.scale(160, 3000)
     budget = ctx.scale(26, 400)
